@@ -17,11 +17,15 @@ FORBIDDEN = re.compile(
     r"Unset Guard Checking|Unset Positivity Checking|Unset Universe Checking|bypass_check|"
     r"type-in-type|impredicative-set|native_compute)\b")
 
+# source-to-Gallina translators run before every build (besides the constants reader and the pipeline translator)
+TRANSLATORS = ["info_from_source.py"]
+
 TRUSTED_BASE = [
     "Coq 8.16.1 kernel (coqc); vm_compute used for case evaluation and closed witnesses; no native_compute",
     "axioms: none (every property theorem prints 'Closed under the global context')",
     "harness/consts_from_source.py (AST reader that regenerates Generated/Constants.v from /repo)",
     "harness/pipeline_from_source.py (AST translator: preProcessor.initDefaultFilters -> Generated/Pipelines.v; its output is compared with the real pre-processor objects over all option combinations in C01 / C02)",
+    "harness/info_from_source.py (AST translator: the vertical-metric fallback functions, getAttrWithFallback, specialFallbacks / staticFallbackData of fontInfoData.py -> Generated/InfoFallbacks.v, fail-closed; proved equal to the hand model that the C16 correspondence runs against the real functions, and to the documented fallbacks)",
     "Python harness: generators, font builders, observers, Gallina term printer (harness/gterm.py)",
     "fontTools/ufoLib2/defcon behaviour is modelled or observed, not verified",
 ]
@@ -60,6 +64,12 @@ def ensure_build():
             consts["pipeline_unrecognised"] = json.loads(out_p.strip().splitlines()[-1])["unrecognised"] if rc_p == 0 else ["<translator crashed> " + out_p[-500:]]
         except Exception:
             consts["pipeline_unrecognised"] = ["<translator output unreadable>"]
+        # ... and the further source-to-Gallina translators (each fail-closed; what they could not translate is recorded)
+        consts["translators"] = {}
+        for tr in TRANSLATORS:
+            rc_t, out_t = sh([PY, os.path.join(VERIF, "harness", tr)], timeout=120)
+            consts["translators"][tr] = {"rc": rc_t, "untranslated": [l for l in out_t.splitlines() if l.startswith("UNTRANSLATED")],
+                                         "summary": (out_t.strip().splitlines() or [""])[-1][:300]}
         mk = os.path.join(COQ, "Makefile")
         cp = os.path.join(COQ, "_CoqProject")
         if not os.path.exists(mk) or os.path.getmtime(mk) < os.path.getmtime(cp):
@@ -358,6 +368,7 @@ def run_check(mod, tier, seed, replay=None):
             "known_findings_hit": {k: v["n"] for k, v in ctx.known_hit.items()},
             "constants_missing_in_source": build["consts"].get("missing", []),
             "constants_changed_vs_snapshot": build["consts"].get("changed_vs_snapshot", []),
+            "translators": build["consts"].get("translators", {}),
             "infra_errors": ctx.infra_errors[:5],
             "notes": ctx.notes,
         },
